@@ -229,6 +229,82 @@ func checkC11(c *Ctx) {
 		}
 		c.Check(ok && n > 0, "C11.3", "cumulative pass over tempo events", p.Pos(cum.Pos()), "two symbolic tempo changes: each segment is integrated with the tempo in force before the event, from the previous event's time", why)
 	}
+	// finalisation keeps every tempo record: whatever the read path runs to finish the tempo map (the functions that set
+	// the "finished" latch) must leave the list holding exactly the records collected, in tick order — a tempo event that
+	// is dropped (de-duplication, tolerance-based compaction) changes the integral from that tick on
+	{
+		flag := p.roleField("smf.SMF", "tempoChangesFinished")
+		var fins []*ssa.Function
+		if flag != nil {
+			if sp := p.Pkg("smf"); sp != nil {
+				for _, f := range pkgFuncsWithClosures(sp, p) {
+					for _, b := range f.Blocks {
+						for _, in := range b.Instrs {
+							if st, ok := in.(*ssa.Store); ok && fieldVar(st.Addr) == flag {
+								if k, ok := st.Val.(*ssa.Const); ok && k.Value != nil && k.Value.String() == "true" {
+									fins = append(fins, f)
+								}
+							}
+						}
+					}
+				}
+			}
+		}
+		if len(fins) == 0 {
+			c.Unk("C11.3", "tempo map finalisation (sets the finished latch)", "-", "not found")
+		}
+		done := map[*ssa.Function]bool{}
+		for _, fin := range fins {
+			if done[fin] || len(fin.Params) != 1 {
+				continue
+			}
+			done[fin] = true
+			c.Fn(FuncName(fin))
+			ex := NewExec(p)
+			var log []durCall
+			mkHook(ex, &log)
+			st := ex.NewState()
+			sp, tcs, _, _ := build(ex, st, false)
+			// two tempi that differ by one unit in the last place: dropping an event whose tempo EQUALS the one in force
+			// would not change any time and is left alone; anything coarser (a tolerance) is reported
+			bpms := []float64{100, math.Nextafter(100, 101)}
+			for i, tp := range tcs {
+				ex.setField(st, tp, "BPM", &FloatV{Known: true, F: bpms[i]})
+			}
+			ok, why, n := true, "", 0
+			for _, o := range ex.Call(st, fin, []Val{sp}, nil) {
+				n++
+				if o.Panic || len(problemEvents(o.St.Events)) > 0 {
+					ok, why = false, o.Msg+fmtEvents(problemEvents(o.St.Events))
+					continue
+				}
+				lv, okL := ex.getField(o.St, sp, "tempoChanges")
+				lst, _ := lv.(*SliceV)
+				recs, okE := ex.sliceElems(o.St, lst)
+				if !okL || !okE || lst == nil {
+					ok, why = false, "tempo list not tracked after finalisation"
+					continue
+				}
+				if len(recs) != len(tcs) {
+					ok, why = false, fmt.Sprintf("after finalisation the tempo map holds %d of the %d tempo events collected (two events with distinct ticks whose tempi differ in the last place): a dropped tempo event changes every later time [%s]", len(recs), len(tcs), outcomeWitness(o))
+					continue
+				}
+				for i, r := range recs {
+					rp, _ := r.(*PtrV)
+					if rp == nil || rp.Obj != tcs[i].Obj {
+						ok, why = false, fmt.Sprintf("record %d of the finished tempo map is not the %d. collected event", i, i)
+						break
+					}
+					bv, _ := ex.getField(o.St, rp, "BPM")
+					if f, _ := bv.(*FloatV); f == nil || !f.Known || f.F != bpms[i] {
+						ok, why = false, fmt.Sprintf("the tempo of record %d is altered by finalisation (%s)", i, valString(bv))
+						break
+					}
+				}
+			}
+			c.Check(ok && n > 0, "C11.3", "finalisation keeps every tempo record ("+FuncName(fin)+")", p.Pos(fin.Pos()), "two collected events with symbolic ticks a < a+c and tempi 100 and nextafter(100): both still in the map, in order, tempi unchanged", why)
+		}
+	}
 	// repeated ticks: two tempo events at the same tick, then a later one — the segment after the shared tick runs
 	// with the LAST tempo set at that tick
 	if cum != nil {
